@@ -11,6 +11,9 @@ COMP = "robotools/liquidhandling/composition.py"
 UT = "robotools/utils.py"
 
 MUTANTS = [
+    dict(id="fluent-split-950", expect=["C06"], edits=[(FLW, "partition_volume(float(v), max_volume=self.max_volume) if self.auto_split else [v]", "partition_volume(float(v), max_volume=950) if self.auto_split else [v]")]),
+    dict(id="multidisp-round", expect=["C06"], edits=[(BASE, "multi_disp = math.floor(self.max_volume / volume)", "multi_disp = round(self.max_volume / volume)")]),
+    dict(id="partition-le", expect=[], silent=["C06"], edits=[(WU, "    if volume < max_volume:\n        return [volume]", "    if volume <= max_volume:\n        return [volume]")]),
     dict(id="add-vol-c-order", expect=["C04"], edits=[(LW, '''        volumes = np.array(volumes).flatten("F")
         if len(volumes) == 1:
             volumes = np.repeat(volumes, len(wells))
